@@ -387,3 +387,38 @@ Proof.
     split; [exact E1|]. intros Hreal. rewrite E1. rewrite (dform_even tw NFFT Hpos meth P S Vh ns (Z.of_nat j) Hreal). reflexivity.
 Qed.
 End ModelAxis.
+
+(* ====================== the clauses put together on eigen() ====================== *)
+Section Resolve.
+Context {F : Type} {OF : Ops F} {L : Laws OF} {OL : OrdLaws OF}.
+Local Open Scope F_scope.
+Variables (tw : Z -> F) (NFFT : nat).
+Context {T : Twiddle NFFT tw}.
+Hypothesis Hpos : (0 < NFFT)%nat.
+
+(* noiseless sum of K on-grid exponentials, signal-subspace dimension set to K, (S, Vh) any SVD of the data matrix whose
+   (K+1)-th singular value is 0: eigen() returns S, and every entry whose centred bin is a true bin (mod NFFT) is the
+   reciprocal of a denominator that is exactly zero — for MUSIC and for EV *)
+Theorem eigen_resolves_thm meth crit amin (x : list F) (P K : nat) (A z : nat -> F) (bin : nat -> Z)
+        (S : list F) (Vh : list (list F)) psd ev :
+  (forall n, (n < length x)%nat -> nthF x n = expsig K A z n) ->
+  (forall i, (i < K)%nat -> z i = tw (- bin i)%Z) ->
+  (K <= np_of (length x) P)%nat -> distinct K z -> (forall i, (i < K)%nat -> A i <> 0) ->
+  svd_spec (fb_matrix x P) (2 * np_of (length x) P) P S Vh -> nthF S K = 0 ->
+  eigen meth (Some (NInt (Z.of_nat K))) None crit amin tw NFFT x P S Vh = inr (psd, ev) ->
+  ev = S /\ length psd = NFFT /\ (K < P)%nat /\
+  forall i j (c : Z), (i < K)%nat -> (j < NFFT)%nat -> centerdc_bin NFFT j = (bin i + c * Z.of_nat NFFT)%Z ->
+    nthF psd j = 1 / dform meth tw P S Vh K (centerdc_bin NFFT j) /\ dform meth tw P S Vh K (centerdc_bin NFFT j) = 0.
+Proof.
+  intros Hx Hgrid HK Hd HA Hs HSK He.
+  destruct (music_axis_eigen_thm tw NFFT Hpos meth _ _ crit amin x P S Vh (svd_shape _ _ _ _ _ Hs) psd ev He)
+    as (ns & Ens & Hev & Hlen & Hnth).
+  destruct (signal_space_choice_thm _ _ _ _ _ _ _ _ _ _ Ens) as (_ & _ & _ & Hc).
+  cbn [choice_spec] in Hc. destruct Hc as (z0 & Hz0 & Hrange & Hns). injection Hz0 as <-. rewrite Nat2Z.id in Hns. subst ns.
+  split; [exact Hev|]. split; [exact Hlen|]. split; [lia|].
+  intros i j c Hi Hj Hbin. split; [apply Hnth; exact Hj|]. rewrite Hbin.
+  apply (denominator_vanishes tw NFFT Hpos x P K A z bin S Vh K Hx Hgrid HK Hd HA); [|exact Hi].
+  intros I HI1 HI2. split; [apply (svd_gram _ _ _ _ _ Hs); exact HI2|].
+  apply (zero_tail _ _ _ _ _ K Hs HSK); assumption.
+Qed.
+End Resolve.
